@@ -254,6 +254,9 @@ def run(chk):
     r20_3(chk)
     r20_4(chk)
     r20_6(chk)
+    # R20.7 what a request leaves in a cache does not depend on the flags of that request
+    from . import pyrules
+    pyrules.check_conn_cache(chk, 'R20.7')
     chk.explanation = ('derive-before-read typestate over the CFG of every public evaluation method (with kernel attribute reads), '
                        'effect analysis on caller-supplied arrays, in-place scalings, prange write-disjointness')
 
